@@ -57,14 +57,21 @@ func runC05(c *Ctx) {
 		fromN := c.funcObj(pGcs, "FromNBytes")
 		mk := c.funcObj(pBuilder, "MakeHeaderForFilter")
 		c.guarded(fn, errNil("gcs.FromNBytes", find(fn, callTo(fromN)), 1), 1, en, eff, 6, gDominate)
-		mkCalls := find(fn, callTo(mk))
-		c.guarded(fn, errNil("builder.MakeHeaderForFilter", mkCalls, 1), 1, en, eff, 6, gDominate)
 		isMkHash := func(v ssa.Value) bool {
 			e, ok := v.(*ssa.Extract)
 			return ok && e.Index == 0 && valIsCallTo(mk)(e.Tuple)
 		}
-		cmps := find(fn, binops(eqOps, isMkHash, loadsField(q("filterHeaders"))))
-		c.guarded(fn, equalIs("filterHeader vs curHeader", cmps, true), 1, en, eff, 6, gDominate)
+		// these two may live in a helper extracted from the handler (bool or
+		// error result); the helper's positive result must then be protected
+		// by them and the helper call is the guard site
+		mkErr := func(f *ssa.Function) guard {
+			return errNil("builder.MakeHeaderForFilter", find(f, callTo(mk)), 1)
+		}
+		mkEq := func(f *ssa.Function) guard {
+			return equalIs("filterHeader vs curHeader", find(f, binops(eqOps, isMkHash, loadsField(q("filterHeaders")))), true)
+		}
+		c.guarded(fn, c.liftGuard(fn, mkErr, 2), 1, en, eff, 6, gDominate)
+		c.guarded(fn, c.liftGuard(fn, mkEq, 2), 1, en, eff, 6, gDominate)
 	})
 
 	c.rule("C05.V1", "the header pair used for validation is (filterHeaders[i-1], filterHeaders[i]) with i = headerIndex[response.BlockHash]; the filter hashed is the one decoded from response.Data; prepareCFiltersQuery fetches block and filter header ancestors with the same (numFilters, stopHash), checks both lengths and indexes block i (from 1) under its own hash", func() {
@@ -76,8 +83,18 @@ func runC05(c *Ctx) {
 			c.fail(c.nm(fn)+" | single headerIndex lookup", c.P.Pos(fn.Pos()), "expected exactly one comma-ok lookup in q.headerIndex")
 			return
 		}
+		// the function that recomputes the header: the handler or a helper it calls
+		host := fn
+		if len(find(fn, callTo(mk))) == 0 {
+			for _, hc := range c.helperCallsOf(fn) {
+				if len(find(hc.callee, callTo(mk))) > 0 {
+					host = hc.callee
+					c.R.Funcs[c.nm(host)] = true
+				}
+			}
+		}
 		isIdx := func(v ssa.Value) bool {
-			e, ok := ir.Strip(v).(*ssa.Extract)
+			e, ok := ir.Strip(c.actual(ir.Strip(v))).(*ssa.Extract)
 			return ok && e.Index == 0 && e.Tuple == lk[0].(ssa.Value)
 		}
 		isIdxMinus1 := func(v ssa.Value) bool {
@@ -102,14 +119,14 @@ func runC05(c *Ctx) {
 			okKey = loadsField(bh)(l.Index)
 		}
 		c.verdict(okKey, c.nm(fn)+" | index looked up under response.BlockHash", c.at(lk[0]), "lookup key is response.BlockHash", "headerIndex is not looked up under the response's block hash", c.at(lk[0]))
-		mkCalls := find(fn, callTo(mk))
+		mkCalls := find(host, callTo(mk))
 		okPrev, okFilter := len(mkCalls) == 1, len(mkCalls) == 1
 		for _, m := range mkCalls {
 			a := ir.CallOf(m).Args
 			if !elemOf(a[1], isIdxMinus1) {
 				okPrev = false
 			}
-			fv, isE := a[0].(*ssa.Extract)
+			fv, isE := c.actual(a[0]).(*ssa.Extract)
 			if !isE || fv.Index != 0 || !valIsCallTo(fromN)(fv.Tuple) {
 				okFilter = false
 			} else {
@@ -127,7 +144,7 @@ func runC05(c *Ctx) {
 			return ok && e.Index == 0 && valIsCallTo(mk)(e.Tuple)
 		}
 		okCur := false
-		for _, in := range find(fn, binops(eqOps, isMkHash, anyVal)) {
+		for _, in := range find(host, binops(eqOps, isMkHash, anyVal)) {
 			b := in.(*ssa.BinOp)
 			o := b.Y
 			if isMkHash(b.Y) {
